@@ -13,6 +13,13 @@ string get_bb_uid () { return "Backbone"; }
 int valid_seteuid (object ob, string newuid) { return 1; }
 // ed: a file name that does not start with '/' is made absolute by the master
 string make_path_absolute (string s) { return "/d/" + s; }
+// ed: where the buffer of a user who went net-dead is saved (the harness sets the answer)
+string dead_name = "";
+void set_dead_name (string s) { dead_name = s; }
+string get_save_file_name (string file) {
+  VL ("ed_save_name [" + file + "] -> =[" + dead_name + "]");
+  return dead_name;
+}
 int valid_link (string from, string to) { if (!quiet) VL ("valid_link [" + from + "] [" + to + "]"); return 1; }
 
 void set_policy (string kind, string s, string q) { pol = kind; pstr = s; quiet = (q == "1"); }
